@@ -214,7 +214,7 @@ class Builder:
         self.top_scopes = []
         self.cur = None  # current FileModel
         self.stats = {"homonyms": 0, "decoys": 0, "renames": 0, "only": 0, "reexport": 0, "inherited": 0, "shadow": 0, "constructs": 0,
-                      "member_chain": 0, "same_line_dups": 0, "quote_mix": 0, "unnamed_interfaces": 0, "io_end_file": 0, "rename_lists": 0, "double_names": 0, "more_constructs": 0, "external_procs": 0, "enums": 0, "interface_bodies": 0}
+                      "member_chain": 0, "same_line_dups": 0, "quote_mix": 0, "unnamed_interfaces": 0, "io_end_file": 0, "rename_lists": 0, "double_names": 0, "more_constructs": 0, "external_procs": 0, "enums": 0, "interface_bodies": 0, "subscripted": 0, "assoc_objects": 0}
         self.construct_id = 0
         self.loopvars = []
         self.scope_stack = []
@@ -550,7 +550,10 @@ class Builder:
                 ct = self.d_pick(others)
                 comp = self.new_ent(cname, "component", tsc, typ=("type", ct))
                 ent.members.append(comp)
-                self.emit("type(", Ref(ct, "typeref", self.spelling_in(sc, ct)), ") :: ", Ref(comp, "decl"), kind="decl", depth=depth + 1)
+                if self.d_bool(2):
+                    comp.attrs["dims"] = True
+                self.emit("type(", Ref(ct, "typeref", self.spelling_in(sc, ct)), ") :: ", Ref(comp, "decl"), *(["(3)"] if comp.attrs.get("dims") else []),
+                          kind="decl", depth=depth + 1)
             else:
                 t = self.d_pick([T_INT, T_REAL])
                 comp = self.new_ent(cname, "component", tsc, typ=t)
@@ -607,8 +610,10 @@ class Builder:
             t = self.d_pick(types)
             ent = self.new_ent(name, kind, sc, vis=vis, typ=("type", t))
             sc.declared[name.lower()] = ent
+            if self.d_bool(2):
+                ent.attrs["dims"] = True  # an array of that type: every reference carries a subscript
             self.emit("type(", Ref(t, "typeref", self.spelling_in(sc, t)), ")" + (f", {vis}" if vis else "") + " :: ", Ref(ent, "decl"),
-                      kind="decl", depth=depth, simple=True)
+                      *(["(3)"] if ent.attrs.get("dims") else []), kind="decl", depth=depth, simple=True)
         else:
             t = self.d_pick([T_INT, T_INT, T_REAL])
             const = self.d_bool(5)
@@ -851,14 +856,42 @@ class Builder:
                 out.append((n, e))
         return sorted(out, key=lambda x: (x[0], x[1].id))
 
-    def member_chain(self, sc, typ, writable=False, maxdepth=3):
-        """obj%a%b of the wanted scalar type -> token list or None"""
-        objs = [(n, e) for n, e in sc.accessible().items() if e.kind in ("variable", "local", "dummy") and isinstance(e.typ, tuple)
-                and (e.writable or not writable)]
+    def subscript(self, sc, ent):
+        """The subscript tokens a reference to `ent` needs: none for a scalar, '(2)' or '(i)' for an array."""
+        if not ent.attrs.get("dims"):
+            return []
+        self.stats["subscripted"] += 1
+        vs = self.vars_of(sc, T_INT)
+        if vs and self.d_bool(2):
+            n, e = self.d_pick(vs)
+            return ["(", Ref(e, "use", n), ")"]
+        return [self.d_pick(["(1)", "(2)", "( 3 )"])]
+
+    def object_chain(self, sc):
+        """obj, obj(i), obj%a(2)%b ... designating a scalar object of derived type -> (tokens, ("type", t)) or None"""
+        objs = [(n, e) for n, e in sc.accessible().items() if e.kind in ("variable", "local", "dummy", "assoc") and isinstance(e.typ, tuple)]
         if not objs:
             return None
         n, obj = self.d_pick(sorted(objs, key=lambda x: (x[0], x[1].id)))
-        toks = [Ref(obj, "use", n)]
+        toks = [Ref(obj, "use", n)] + self.subscript(sc, obj)
+        t = obj.typ[1]
+        for _ in range(2):
+            nested = [m for m in t.all_members().values() if m.kind == "component" and isinstance(m.typ, tuple)]
+            if not nested or self.d_bool(3):
+                break
+            m = self.d_pick(sorted(nested, key=lambda x: x.id))
+            toks += ["%", Ref(m, "member")] + self.subscript(sc, m)
+            t = m.typ[1]
+        return toks, ("type", t)
+
+    def member_chain(self, sc, typ, writable=False, maxdepth=3, only=None):
+        """obj%a%b of the wanted scalar type -> token list or None"""
+        objs = [(n, e) for n, e in sc.accessible().items() if e.kind in ("variable", "local", "dummy", "assoc") and isinstance(e.typ, tuple)
+                and (e.writable or not writable) and (only is None or e is only)]
+        if not objs:
+            return None
+        n, obj = self.d_pick(sorted(objs, key=lambda x: (x[0], x[1].id)))
+        toks = [Ref(obj, "use", n)] + self.subscript(sc, obj)
         t = obj.typ[1]
         for level in range(maxdepth):
             mem = [m for m in t.all_members().values() if m.kind == "component"]
@@ -874,7 +907,7 @@ class Builder:
                 return toks
             if nested:
                 m = self.d_pick(sorted(nested, key=lambda x: x.id))
-                toks += ["%", Ref(m, "member")]
+                toks += ["%", Ref(m, "member")] + self.subscript(sc, m)
                 if m.scope.ent is not t:
                     self.stats["inherited"] += 1
                 t = m.typ[1]
@@ -973,7 +1006,7 @@ class Builder:
                 if bs:
                     b = self.d_pick(sorted(bs, key=lambda x: x.id))
                     tgt = b.target
-                    toks = ["call ", Ref(obj, "use", n), "%", Ref(b, "member"), "("]
+                    toks = ["call ", Ref(obj, "use", n), *self.subscript(sc, obj), "%", Ref(b, "member"), "("]
                     first = True
                     for d in tgt.dummies:
                         if d.attrs.get("class"):
@@ -1108,11 +1141,23 @@ class Builder:
             typ = self.d_pick([T_INT, T_REAL])
             an = self.name_for(Scope("tmp", None, sc) if False else sc, allow_homonym=False)
             asc = Scope("associate", None, sc)
+            oc = self.object_chain(sc) if self.d_bool(3) else None
+            if oc is not None:
+                # the associate name stands for an object of derived type: 'associate (p => a(i)%b(2))', then p%c
+                src, typ = oc
+                self.stats["assoc_objects"] += 1
+            else:
+                src = self.expr(sc, typ, 1)
             a = self.new_ent(an, "assoc", asc, typ=typ, writable=False)
-            src = self.expr(sc, typ, 1)
             asc.declared[an.lower()] = a
             self.emit(*pre, "associate (", Ref(a, "decl"), " => ", *src, ")", kind="open-construct", depth=depth, opens=cid)
             self.push(asc)
+            if oc is not None:
+                for t_ in (T_INT, T_REAL):
+                    mc = self.member_chain(asc, t_, only=a)
+                    if mc:
+                        self.emit("print *, ", *mc, kind="exec", depth=depth + 1, simple=True)
+                        break
             self.gen_body(asc, depth + 1, nest=nest + 1)
             self.pop()
             self.emit("end associate", *post, kind="close-construct", depth=depth, closes=cid)
@@ -1168,6 +1213,36 @@ def fix_interfaces(prog):
                 stack.pop()
             out.append(s)
         f.stmts = out
+
+
+def chain_prev(toks, ti):
+    """Index of the reference that toks[ti] is a member of ('base%x', 'base(2)%x', 'base(i)%x'), or None."""
+    if ti < 2 or toks[ti - 1] != "%":
+        return None
+    k = ti - 2
+    if isinstance(toks[k], str):
+        if toks[k] == ")":
+            k -= 3  # "(", index variable, ")"
+        elif toks[k].lstrip().startswith("("):
+            k -= 1  # a literal subscript "(2)"
+        else:
+            return None
+    return k if k >= 0 and isinstance(toks[k], Ref) else None
+
+
+def chain_continues(toks, ti):
+    """Is the reference toks[ti] followed by '%member' (after its own subscript, if it is an array)?"""
+    j = ti + 1
+    if isinstance(toks[ti], Ref) and toks[ti].ent.attrs.get("dims") and j < len(toks) and isinstance(toks[j], str):
+        j += 3 if toks[j] == "(" else 1
+    return j < len(toks) and toks[j] == "%"
+
+
+def chain_root_index(toks, ti):
+    k = ti
+    while chain_prev(toks, k) is not None:
+        k = chain_prev(toks, k)
+    return k
 
 
 # ------------------------------------------------------------------ layout and rendering
